@@ -32,7 +32,7 @@ from mc.common import pmap
 
 SIZES   = [(1, 1), (1, 2), (2, 1), (1, 7), (3, 5), (9, 16), (17, 33)]    # (height, width); 9x16 is the design's "16x9"; 17x33 spans several JPEG MCUs
 FORMATS = ['GRAY', 'BGR', 'RGB']
-LAYOUTS = ['contig', 'strided', 'negstride', 'readonly', 'jpg_undecoded', 'jpg_decoded', 'ro_cached_jpg']
+LAYOUTS = ['contig', 'strided', 'negstride', 'readonly', 'ro_strided', 'jpg_undecoded', 'jpg_decoded', 'ro_cached_jpg']
 OUTS    = [None, True, False]
 TRANS   = ['direct', 'wire']
 JPG_TOL = 6.0
@@ -94,6 +94,12 @@ def make_frame(kind, data):
         big = np.zeros((2 * h, 2 * w) + pix.shape[2:], np.uint8) + 255
         big[::2, ::2] = pix
         img = big[::2, ::2]                     # (for 1x1 numpy still calls this contiguous; every other size is not)
+
+    elif layout == 'ro_strided':               # a read-only view into a larger buffer (crop / step): both properties at once
+        big = np.zeros((2 * h, 2 * w) + pix.shape[2:], np.uint8) + 255
+        big[::2, ::2] = pix
+        img = big[::2, ::2]
+        img.flags.writeable = False
 
     elif layout == 'negstride':
         img = (np.ascontiguousarray(pix[:, ::-1])[:, ::-1] if fmt == 'GRAY' else
